@@ -15,6 +15,8 @@ import (
 	"errors"
 	"fmt"
 	"os"
+
+	ocispec "github.com/opencontainers/image-spec/specs-go/v1"
 	"sort"
 	"strings"
 	"sync"
@@ -177,7 +179,14 @@ func mergeCase(t *testing.T, c *MergeCase) {
 				defer wg.Done()
 				var old map[int]bool
 				oldPresent := false
-				err := pool.Do("tag", th, func() error {
+				// the Pool key is the referrers tag of the caller's subject descriptor; callers
+				// name the same subject digest with different media types / sizes
+				sd := ocispec.Descriptor{MediaType: tagMTs[th%len(tagMTs)], Digest: dA, Size: int64((th % 3) * 7)}
+				key, kerr := remote.VerifBuildReferrersTag(sd)
+				if kerr != nil {
+					key = "ERR"
+				}
+				err := pool.Do(key, th, func() error {
 					if park("P", th) {
 						return errOther
 					}
